@@ -4,7 +4,7 @@ import re, json
 import z3
 from .lib import *
 from .report import Candidate, Broken
-from .mirsym import Unmodelled
+from .mirsym import Unmodelled, Const
 from .scen_kernels import s_str_index, PANICS as KPANICS
 
 
@@ -846,3 +846,107 @@ def record_local_premise(ctx):
                 c.status = 'reproduced'; return
     c.replay = {'battery': len(RL_BATTERY), 'result': 'every pipeline of the battery is record-local'}
     c.status = 'not-reproduced'
+
+
+# ---------------------------------------------------------------- fold
+def fold(ctx):
+    """(fold L [init] f): f is evaluated once per element, in order, on {so_far (only when there is one), value, index}
+    in the context `current.with_inupt(..)`; its answer - a value or nothing - is the next so_far; the last answer is the result"""
+    run = ctx.run
+    K = 3
+    run.bounds['fold'] = f'lists of 0..{K} opaque elements, with and without an initial value (present or nothing); the function argument answers a value or nothing at every step'
+    fam = run.family('fn.fold', 'fold threads exactly the previous answer of the function (nothing included) into so_far, passes value and index of every element in order, and returns the last answer (the initial value for an empty list)')
+    JV = ctx.enums['JsonValue']
+    from .scen_kernels import s_vec_get
+    from .fmt import unescape_bytes
+    for nargs in (2, 3):
+        for k in range(K + 1):
+            def s_apply(ex, st, func, args, ty, k=k):
+                i = cval(args[2].t)
+                if i == 0:
+                    arr = mk_enum(st, 'JsonValue', JV.index('Array'), 'Array', (seqobj(st, 'Vec', [named(st, f'E{j}', 'JsonValue') for j in range(k)]),))
+                    return [(st, some(st, arr))]
+                out = []
+                for present in (True, False):
+                    s2 = st.clone(); s2.events.append(('init', present)); out.append((s2, some(s2, named(s2, 'INIT', 'JsonValue')) if present else none(s2)))
+                return out
+            def s_len(ex, st, func, args, ty, nargs=nargs): return [(st, BV(bv64(nargs)))]
+            def s_enumerate(ex, st, func, args, ty):
+                it = obj(st, args[0]); items = []
+                for i, x in enumerate(st.heap[it.oid]['model']):
+                    t = named(st, st.fresh_name('ix'), 'tuple'); st.heap[t.oid][('f', None, 0)] = BV(bv64(i)); st.heap[t.oid][('f', None, 1)] = x; items.append(t)
+                return [(st, seqobj(st, 'Enumerate', items))]
+            def s_to_string(ex, st, func, args, ty):
+                if isinstance(args[0], Const):
+                    o = named(st, st.fresh_name('key'), 'String'); st.heap[o.oid]['text'] = unescape_bytes(args[0].text).decode(); return [(st, o)]
+                return None
+            def s_map_new(ex, st, func, args, ty): return [(st, seqobj(st, 'IndexMap', ()))]
+            def s_insert(ex, st, func, args, ty):
+                mo = obj(st, args[0]); ko = obj(st, args[1]); v = obj(st, args[2])
+                key = st.heap[ko.oid].get('text', '?')
+                val = ('index', cval(st.heap[v.oid]['index'].t)) if 'index' in st.heap[v.oid] else origin(st, v)
+                st.heap[mo.oid]['model'] = tuple(st.heap[mo.oid]['model']) + ((key, val),)
+                return [(st, none(st))]
+            def s_usize_into(ex, st, func, args, ty):
+                o = named(st, st.fresh_name('idx'), 'JsonValue'); st.heap[o.oid]['index'] = args[0]; return [(st, o)]
+            def s_map_into(ex, st, func, args, ty):
+                o = named(st, st.fresh_name('objval'), 'JsonValue'); st.heap[o.oid]['members'] = tuple(model(st, args[0])); return [(st, o)]
+            def s_with_input(ex, st, func, args, ty):
+                o = named(st, st.fresh_name('ctx'), 'Context'); v = obj(st, args[1]); st.heap[o.oid]['chain'] = (origin(st, args[0]), st.heap[v.oid].get('members', origin(st, v))); return [(st, o)]
+            def s_dyn_get(ex, st, func, args, ty):
+                c = obj(st, args[1]); out = []
+                n = sum(1 for e in st.events if e[0] == 'eval')
+                for present in (True, False):
+                    s2 = st.clone(); s2.events.append(('eval', origin(s2, args[0]), s2.heap[c.oid].get('chain', origin(s2, c)), present))
+                    out.append((s2, some(s2, named(s2, f'R{n}', 'JsonValue')) if present else none(s2)))
+                return out
+            def s_clone(ex, st, func, args, ty): return [(st, obj(st, args[0]))]
+            summ = [(r'as functions_definitions::Arguments>::apply$', s_apply), (r'^Vec::<Rc<dyn Get>>::len$', s_len), (r'impl \[.*\]>::get::<usize>$|Vec::<.*>::get::<usize>$', s_vec_get),
+                    (r'impl \[.*\]>::iter$|<&Vec<.*> as IntoIterator>::into_iter$', s_iter_ref), (r'as Iterator>::enumerate$', s_enumerate), (r'as IntoIterator>::into_iter$', s_identity), (r'as Iterator>::next$', s_iter_next),
+                    (r'IndexMap::<.*>::with_capacity$|IndexMap::<.*>::new$', s_map_new), (r'<str as ToString>::to_string$|<&str as Into<std::string::String>>::into$', s_to_string), (r'<JsonValue as Clone>::clone$', s_clone),
+                    (r'IndexMap::<.*>::insert$', s_insert), (r'<usize as Into<JsonValue>>::into$|<JsonValue as From<usize>>::from$', s_usize_into), (r'<IndexMap<.*> as Into<JsonValue>>::into$|<JsonValue as From<IndexMap<.*>>>::from$', s_map_into),
+                    (r'Context::with_inupt$', s_with_input), (r'<dyn Get as Get>::get$', s_dyn_get), (r'<Vec<.*> as Deref>::deref$|<Rc<.*> as Deref>::deref$', s_identity)]
+            ex = ctx.exec(summaries=summ, max_visits=4 * K + 12)
+            F = ex.find(r'fold::get::\{closure#0\}::<impl at [^>]*>::get$')
+            st = State(); so = named(st, 'self', 'Impl')
+            st.heap[so.oid][('f', None, 0)] = seqobj(st, 'Vec', [named(st, f'G{i}', 'Rc<dyn Get>') for i in range(nargs)], origin='self.0')
+            ex.new_frame(st, F, [slot(st, so, 'self*'), slot(st, named(st, 'CTX', 'Context'), 'ctx*')])
+            fn = f'G{nargs - 1}'
+            for d in ex.run(st) + list(ex.extra_paths):
+                run.paths += 1
+                if d.status == 'infeasible': continue
+                fam.obligations += 1; fam.paths += 1; fam.witnesses += 1
+                why = None
+                if d.status != 'returned': why = f'{d.status} {d.notes[-1:]}'
+                else:
+                    init = [e[1] for e in d.events if e[0] == 'init']
+                    cur = 'INIT' if (nargs == 3 and init == [True]) else None
+                    evs = [e for e in d.events if e[0] == 'eval']
+                    if nargs == 2 and init: why = 'a two-argument fold evaluates an initial value'
+                    elif len(evs) != k: why = f'the function is evaluated {len(evs)} times for {k} elements'
+                    else:
+                        for i, e in enumerate(evs):
+                            want = ((('so_far', cur),) if cur is not None else ()) + (('value', f'E{i}'), ('index', ('index', i)))
+                            if e[1] != fn or e[2] != ('CTX', want): why = f'step {i}: evaluates {e[1]} on {e[2]}, expected {fn} on CTX.with_inupt({dict(want)})'; break
+                            cur = f'R{i}' if e[3] else None
+                        if why is None:
+                            r = obj(d, d.ret); rd = cval(ex.discr(d, r).t)
+                            got = origin(d, d.heap[r.oid][('f', 'Some', 0)]) if rd == 1 else None
+                            if got != cur: why = f'answers {[e[3] for e in evs]} (initial {init}) give {got}, expected {cur}'
+                if why is None: fam.discharged += 1
+                elif not any(c.role == f'fold{nargs}' for c in fam.candidates):
+                    fam.candidates.append(Candidate(fam.name, f'fold{nargs}', f'(fold <list of {k}> {"init " if nargs == 3 else ""}f): {why}', {'k': k, 'nargs': nargs}, unmodelled=(d.havoc or [None])[0]))
+            run.absorb(ex)
+    if fam.discharged: fam.add_sample({'call': '(fold [E0,E1] INIT f)', 'steps': 'f{so_far: INIT, value: E0, index: 0} -> R0 | nothing; f{[so_far: R0,] value: E1, index: 1} -> result', 'verdict': 'for every answer pattern'})
+    from .cli import run_jawk, show
+    DEMOS = [('(fold .l 100 (+ .index .so_far .value))', '{"l":[1,10,0.6]}', 114.6), ('(fold .l (? (number? .so_far) (+ .so_far .value) .value))', '{"l":[1,10,0.6]}', 11.6),
+             ('(fold .l 0 (+ .so_far .value))', '{"l":[1,"x"]}', None), ('(fold .l 0 (+ .so_far .value))', '{"l":[1,"x",2]}', None), ('(fold .l 0 (default (+ .so_far .value) "none"))', '{"l":[1,"x",2]}', 'none'),
+             ('(fold .l 5 .so_far)', '{"l":[]}', 5), ('(fold .l (default .so_far "first"))', '{"l":[7]}', 'first'), ('(fold .l 1 ^.b)', '{"l":[1,2],"b":"B"}', 'B')]
+    for c in fam.candidates:
+        c.status = 'unit' if not c.unmodelled else 'not-reproduced'
+        for expr, stdin, exp in DEMOS:
+            r = run_jawk(ctx, ['--select', expr + '=r', '--style', 'consise'], stdin.encode())
+            try: got = json.loads(show(r['stdout'])).get('r')
+            except Exception: got = show(r['stdout'])
+            if got != exp:
+                c.replay = {'argv': ['--select', expr + '=r'], 'stdin': stdin, 'expected': exp, 'actual': got}; c.status = 'reproduced'; break
